@@ -83,12 +83,23 @@ def run(chk):
             okw = len(wst) == 1 and unparse(wst[0].value) == f'weights[{i}]'
         jl = [b for b in body if isinstance(b, ast.For)]
         okj = len(jl) == 1 and unparse(jl[0].iter) == 'range(3)'
+        if not jl and len(pst) == 1 and sname:
+            # whole-row form  psort[s, :] = pos[i, :]  (or psort[s] = pos[i]): all components of the row travel together
+            ti, vi = _idx(pst[0].targets[0]), (_idx(pst[0].value) if isinstance(pst[0].value, ast.Subscript) else [])
+            if ti in ([sname, ':'], [sname]) and vi in ([i, ':'], [i]) and len(ti) == len(vi) and unparse(pst[0].value.value) == 'pos':
+                okp = okj = True
         chk.check(okp and okw and okj, 'C17-R4', TSC, Q, f'scatter pass {n + 1}: psort[s,j] = pos[i,j]' + (', wsort[s] = weights[i]' if hasw else ''),
                   '', f'position copy ok={okp} (3 components={okj}); weight copy ok={okw}: weights would not travel with their particle', node=S)
     if len(scat) == 2:
         a, b = scat
-        na = [norm(ast.parse(unparse(s))) for s in _inner_loop(a).body if 'wsort' not in unparse(s)]
-        nb = [norm(ast.parse(unparse(s))) for s in _inner_loop(b).body if 'wsort' not in unparse(s)]
+        def _canon_copy(st):
+            # the position copy is checked on its own (R4 above) in either form: loop over 3 components or whole row
+            u = unparse(st)
+            if u.startswith('psort[') or (isinstance(st, ast.For) and 'psort[' in u and unparse(st.iter) == 'range(3)'):
+                return 'POSITION-COPY'
+            return norm(ast.parse(u))
+        na = [_canon_copy(s) for s in _inner_loop(a).body if 'wsort' not in unparse(s)]
+        nb = [_canon_copy(s) for s in _inner_loop(b).body if 'wsort' not in unparse(s)]
         chk.check(na == nb and unparse(a.iter) == unparse(b.iter), 'C17-R4', TSC, Q, 'weighted and unweighted scatter agree', '',
                   'the two scatter branches differ beyond the weight copy', node=b)
     # sort branches
@@ -186,17 +197,28 @@ def layout(chk, fn, H, scat):
     ok_alloc = len(pa) == 1 and unparse(pa[0].value.args[0]) in ('nthread * npartition', 'npartition * nthread')
     ok0 = len(p0) == 1 and unparse(p0[0].value) == '0'
     ok1 = len(p1) == 1 and unparse(p1[0].value) == 'np.cumsum(counts.T)[:-1]'
-    chk.check(ok_alloc and ok0 and ok1, 'C17-R3', 'abacusnbody/analysis/tsc.py', Q, 'exclusive prefix sum in stripe-major order',
-              'pointers = [0] ++ cumsum(counts.T)[:-1]',
-              f'alloc ok={ok_alloc}, first element 0={ok0}, prefix = {unparse(p1[0].value) if p1 else None}: cell (t,k) must start after all smaller stripes, then smaller threads',
-              node=(p1 or p0 or pa or [fn])[0])
-    okr = False
-    if len(pr) == 1 and shape:
+    loopform = _prefix_loop(fn)
+    if loopform is not None and not p1 and not pr:
+        ok_l, why_l, node_l = loopform
+        chk.check(ok_l, 'C17-R3', 'abacusnbody/analysis/tsc.py', Q, 'exclusive prefix sum in stripe-major order', 'explicit accumulator loop: stripes outer, threads inner',
+                  f'prefix loop: {why_l}: cell (t,k) must start after all smaller stripes, then smaller threads', node=node_l)
+        chk.proven('C17-R3', 'abacusnbody/analysis/tsc.py', Q, 'reshape (npartition, nthread) then transpose pairs with counts.T', 'not needed: pointers is filled cell by cell as (nthread, npartition)', node=node_l)
+        pr = [node_l]
+        skip_vector = True
+    else:
+        skip_vector = False
+    if not skip_vector:
+      chk.check(ok_alloc and ok0 and ok1, 'C17-R3', 'abacusnbody/analysis/tsc.py', Q, 'exclusive prefix sum in stripe-major order',
+                'pointers = [0] ++ cumsum(counts.T)[:-1]',
+                f'alloc ok={ok_alloc}, first element 0={ok0}, prefix = {unparse(p1[0].value) if p1 else None}: cell (t,k) must start after all smaller stripes, then smaller threads',
+                node=(p1 or p0 or pa or [fn])[0])
+      okr = False
+      if len(pr) == 1 and shape:
         v = unparse(pr[0].value)
         okr = v in (f'np.ascontiguousarray(pointers.reshape({shape[1]}, {shape[0]}).T)', f'pointers.reshape({shape[1]}, {shape[0]}).T',
                     f'np.ascontiguousarray(pointers.reshape(({shape[1]}, {shape[0]})).T)')
-    chk.check(okr, 'C17-R3', 'abacusnbody/analysis/tsc.py', Q, 'reshape (npartition, nthread) then transpose pairs with counts.T', '',
-              f'pointers relaid as {unparse(pr[0].value) if pr else None}: does not undo the flatten order of counts.T', node=(pr or [fn])[0])
+      chk.check(okr, 'C17-R3', 'abacusnbody/analysis/tsc.py', Q, 'reshape (npartition, nthread) then transpose pairs with counts.T', '',
+                f'pointers relaid as {unparse(pr[0].value) if pr else None}: does not undo the flatten order of counts.T', node=(pr or [fn])[0])
     s0 = find(lambda s: unparse(s.targets[0]) == 'starts[:-1]')
     s1 = find(lambda s: unparse(s.targets[0]) == 'starts[-1]')
     sa = find(lambda s: unparse(s.targets[0]) == 'starts' and 'np.empty' in unparse(s.value))
@@ -252,3 +274,39 @@ def c07_like_key(chk, fn):
             detail = str(e)
     chk.check(ok, 'C17-R5', 'abacusnbody/analysis/tsc.py', Q, 'stripe key', detail,
               f'{detail or (unparse(keyst[0]) if keyst else None)}: stripe s must hold floor(x*P/box) == s with the last stripe closed above', node=keyst[0] if keyst else fn)
+
+
+def _prefix_loop(fn):
+    """Accumulator form of the stripe-major exclusive prefix sum:
+         acc = 0;  for k in range(npartition): for t in range(nthread): pointers[t, k] = acc; acc += counts[t, k]
+    Returns (ok, why, node) when such a nest exists (ok False when it exists but is not the required order), else None."""
+    for s in fn.body:
+        if not (isinstance(s, ast.For) and isinstance(s.target, ast.Name) and len(s.body) == 1 and isinstance(s.body[0], ast.For)
+                and isinstance(s.body[0].target, ast.Name)):
+            continue
+        outer, inner = s, s.body[0]
+        stores = [b for b in inner.body if isinstance(b, ast.Assign) and isinstance(b.targets[0], ast.Subscript) and unparse(b.targets[0].value) == 'pointers']
+        if not stores:
+            continue
+        k, t = outer.target.id, inner.target.id
+        why = []
+        if unparse(outer.iter) != 'range(npartition)' or unparse(inner.iter) != 'range(nthread)':
+            why.append(f'loops are {unparse(outer.iter)} (outer) / {unparse(inner.iter)} (inner), need stripes outer and threads inner')
+        body = inner.body
+        okb = len(body) == 2 and len(stores) == 1 and body[0] is stores[0] and _idx(stores[0].targets[0]) == [t, k] and isinstance(stores[0].value, ast.Name)
+        acc = stores[0].value.id if okb else None
+        okb = okb and isinstance(body[1], ast.AugAssign) and isinstance(body[1].op, ast.Add) and unparse(body[1].target) == acc and unparse(body[1].value) == f'counts[{t}, {k}]'
+        if not okb:
+            why.append(f'loop body is {[unparse(b) for b in body]}, need pointers[t, k] = acc; acc += counts[t, k]')
+        init = [x for x in fn.body if isinstance(x, ast.Assign) and acc and unparse(x.targets[0]) == acc and x.lineno < outer.lineno]
+        if acc and not (init and unparse(init[-1].value) in ('0', 'np.int64(0)', 'np.uint64(0)')):
+            why.append(f'accumulator {acc} does not start at 0')
+        al = [x for x in fn.body if isinstance(x, ast.Assign) and unparse(x.targets[0]) == 'pointers' and isinstance(x.value, ast.Call) and x.lineno < outer.lineno]
+        if not (al and al[-1].value.args and unparse(al[-1].value.args[0]) == '(nthread, npartition)'):
+            why.append('pointers is not allocated as (nthread, npartition)')
+        others = [x for x in walk_no_nested(fn) if isinstance(x, (ast.Assign, ast.AugAssign)) and acc and acc in [n.id for n in ast.walk(x) if isinstance(n, ast.Name) and isinstance(n.ctx, ast.Store)]
+                  and x not in (init[-1:] + [body[1]] if okb else [])]
+        if others:
+            why.append(f'{acc} is also written at line {others[0].lineno}')
+        return (not why, '; '.join(why), outer)
+    return None
